@@ -10,7 +10,7 @@ RULE = ("(timed) histories executed inside one computation on a round clock (one
         "call key k of a deduplicated callable (function / a second function with the same qualified name / method on a truthy or a falsy instance / static method) with a spelling (positional / keyword / explicit default) "
         "or call dirty(k); bodies last r(k) rounds and optionally fail. (toplevel) histories of t = f.asynq(k), t.value(), dirty(k) outside any task. "
         "Oracle: reference in-flight table. non-trivial = a second call arrives strictly between the first call's start and completion, or a call follows "
-        "dirty() while the dirtied task is still in flight, or a call follows completion; distinct = distinct case JSON")
+        "dirty() while the dirtied task is still in flight, or a call follows completion; distinct = distinct case JSON Three functions of one factory share one decorator object (two with equal, one with different defaults).")
 ASSUMPTIONS = ["when a call and the completion of the in-flight task fall in the same round, depth-first order decides: the model accepts both outcomes there (counted as ties, never as non-trivial)",
                "calls from inside the running body are not generated (the property excludes them)"]
 
